@@ -197,7 +197,7 @@ func (c *Ctx) simWorkers(sim string) int {
 // overlapping reflected fields, and logging on after a failed sink write. Filed under the calling property.
 func jeScenarios(c *Ctx, prop string) {
 	keep := map[string]map[string]bool{
-		"C01": {"invalid-json": true, "panic": true, "entry-lost": true, "sink:hang": true},
+		"C01": {"invalid-json": true, "panic": true, "entry-lost": true, "entry-duplicated": true, "sink:hang": true},
 		"C02": {"value": true, "invalid-json": true, "entry-lost": true},
 		"C08": {"value": true, "invalid-json": true, "panic": true},
 		"C07": {"value": true, "invalid-json": true},
@@ -209,7 +209,7 @@ func jeScenarios(c *Ctx, prop string) {
 			fs = append(fs, replayAfterSinkError()...)
 		}
 		if prop == "C01" && rep == 0 {
-			for _, f := range sharedFileLines() {
+			for _, f := range append(sharedFileLines(), lockedBufferedSinkLines()...) {
 				fs = append(fs, jeFinding{Key: f.Key, What: f.What})
 			}
 		}
